@@ -107,7 +107,7 @@ def run(tier, seed):
                 "batches or a tail batch; each replayed into the real fit() with the same draws.  Traces: unforced "
                 "real runs, N up to 23, tensor/numpy/list containers, validated by TraceTrain.tla" % (3 if tier == "quick" else 4))
     res = tc.mc(cfg_space(tier), maxinj=0, invariants=["TypeOK", "EachRowOnce", "OwnBasis", "Protocol", "StepProtocol"],
-                timeout=3000)
+                timeout=3000, export_sample=None if tier == "quick" else (60000, seed))
     chk.add_tlc(res, "Train.tla batching, all permutations")
     if res.violation:
         chk.violation("spec:" + str(res.violation), dict(tlc=res.raw[-4000:]))
@@ -115,7 +115,7 @@ def run(tier, seed):
     behs = res.exports
     # TLC checked every behaviour; a seeded sample is replayed into the real fit()
     cap = 2500 if tier == "quick" else 60000
-    chk.extra["terminal_behaviours_checked_by_tlc"] = len(behs)
+    chk.extra["terminal_behaviours_checked_by_tlc"] = res.exported if res.exported is not None else len(behs)
     if len(behs) > cap:
         behs = rng.sample(behs, cap)
     conts = ["tensor", "numpy", "list", "tensor_strided", "numpy_fortran"]
